@@ -533,6 +533,10 @@ func (cp *composePlan) tasks(pass int) []func(w *worker) {
 			if pass == 1 && c.hashes == nil {
 				return // pass 0 did not get to this task (wall budget)
 			}
+			if pass == 0 && !w.census { // survival census (census.go) in the first environment
+				w.census = true
+				defer func() { w.census = false }()
+			}
 			s, p := c.s, c.p
 			site := []string{s.site()}
 			frame0 := cp.g.render([]choice{{s, spelling{text: p.tmpl(sentinel), needs: p.needs}}}, true)
@@ -583,6 +587,10 @@ func (cp *composePlan) tasks(pass int) []func(w *worker) {
 		out = append(out, func(w *worker) {
 			if pass == 1 && cl.hashes == nil {
 				return
+			}
+			if pass == 0 && !w.census {
+				w.census = true
+				defer func() { w.census = false }()
 			}
 			site := []string{cl.s.site()}
 			var hashes []uint64
